@@ -70,3 +70,12 @@ package astdiff
 //@     invariant regions.arr != 0 || len(from.Children) == 0
 //@   loop 2
 //@     invariant 0 <= i && 0 <= j
+
+// The similarity callback of nodeComparer.Walk: diff.Difference may ask about the same pair several times;
+// the comparison itself (a walk over both subtrees) is made at most once per pair, otherwise the time
+// doubles with every level of nesting (C08: terminates promptly).
+//@ func (c *nodeComparer) Walk$1(i, j) (r)
+//@   requires 0 <= i && i < len(seen) && i < len(results) && i < len(from.Children) && 0 <= j && j < len(seen[i]) && j < len(results[i]) && j < len(to.Children)
+//@   requires from != nil && to != nil && from.Children[i] != nil && to.Children[j] != nil
+//@   at call astdiff.compareNodes assert [C08] a-pair-is-compared-at-most-once: !seen[i][j]
+//@   ensures [C08] a-compared-pair-is-remembered: seen[i][j]
